@@ -164,8 +164,12 @@ def run(ctx):
         f0, f1 = P0 / Qs, P1 / Qs
         tag = 'cell%d' % ci
         try:
+            g0, g1 = f0.copy(), f1.copy()
             dv = am.dvect(f0, f1, box, pbc)
             dm = am.dmag(f0, f1, box, pbc)
+            if not (np.array_equal(f0, g0) and np.array_equal(f1, g1)):
+                ctx.violation('dvect / dmag modified the position arrays passed to them', tag)
+                f0, f1 = g0, g1
             recs += _rec_rows('dvect', v, o, pbc, P0, P1, dv, Qs, small and spread == (0, 1), tag, 'dv')
             recs += _rec_rows('dmag', v, o, pbc, P0, P1, dm, Qs, False, tag, 'dm')
             # |dvect| = dmag row by row is implied: both are compared with the same Min27
